@@ -7,10 +7,17 @@
 (* strndup/vasprintf/free).  After every call                              *)
 (*      live blocks = sum of the footprints of the objects still owned     *)
 (* -- on failure paths as on success paths -- and no FILE stays open.      *)
-(* A release function returns exactly the footprint of its object.         *)
+(* A call that hands nothing out leaves nothing behind (but the error it   *)
+(* reports); a release function returns exactly the footprint of its       *)
+(* object; at the end of a history nothing is held.                        *)
 (***************************************************************************)
 EXTENDS Integers, Sequences, FiniteSets, TLC
-\* footprint of a freshly constructed object of a result kind (n: list length / requested capacity / flags, as logged)
+\* The footprint of an object is what its constructor was SEEN to allocate (ev.d at the successful call), not a constant
+\* of the pinned implementation: the property speaks about release ("exactly once with its documented free function, after
+\* which the process holds no memory"), not about how many blocks stand behind an object.  A library that lays an object
+\* out in fewer or more blocks keeps the property (benign/layout-a), and is accepted; a constructor that leaks a temporary
+\* is still caught, because its release returns fewer blocks than the ledger holds for the object.
+\* The blocks the pinned implementation uses are kept as a reference (reported in the evidence, never judged):
 Footprint(kind, n) ==
   CASE kind = "compound" -> 4          \* struct + Elements + massFractions + nAtoms
     [] kind = "nist" -> 4              \* struct + name + Elements + massFractions
@@ -20,28 +27,28 @@ Footprint(kind, n) ==
     [] kind = "string" -> 1
     [] kind = "array" -> IF n > 0 THEN 2 ELSE 1     \* struct (+ storage)
     [] kind = "error" -> 2             \* struct + message
-\* st = [own : id -> footprint (0 = not owned), pending : blocks of an error object sitting in the caller's slot]
+\* st = [own : id -> blocks held by the object in that slot (0 = not owned), pending : blocks of an error object sitting in the caller's slot]
 Owned(st) == { i \in DOMAIN st.own : st.own[i] > 0 }
 RECURSIVE SumOver(_, _)
 SumOver(f, S) == IF S = {} THEN 0 ELSE LET x == CHOOSE x \in S : TRUE IN f[x] + SumOver(f, S \ {x})
 Ledger(st) == SumOver(st.own, Owned(st)) + st.pending
-\* expected change of the number of live blocks by one logged step; ev.n carries: list length (lists), requested capacity (ArrayInit),
-\* had-storage flag (AddCrystal), 10*entries + had-storage (successful ReadFile)
-Delta(st, ev) ==
-  LET errblocks == IF ev.err = 1 /\ ev.slot = 1 THEN Footprint("error", 0) ELSE 0 IN
-  CASE ev.op = "Free" -> 0 - st.own[ev.id]
-    [] ev.op = "ClearError" -> 0 - st.pending
-    [] ev.op = "Call" -> errblocks
-    [] ev.op = "Crystal_AddCrystal" -> (IF ev.ok = 1 THEN 2 + (IF ev.n = 0 THEN 1 ELSE 0) ELSE 0) + errblocks
-    [] ev.op = "Crystal_ReadFile" -> (IF ev.ok = 1 THEN 2 * (ev.n \div 10) + (IF ev.n % 10 = 0 /\ ev.n \div 10 > 0 THEN 1 ELSE 0) ELSE 0) + errblocks      \* a file without entries (empty, the null device) adds nothing and needs no storage
-    [] OTHER -> (IF ev.ok = 1 THEN Footprint(ev.kind, ev.n) ELSE 0) + errblocks
+Grows == {"Crystal_AddCrystal", "Crystal_ReadFile"}                \* steps that add to an object the caller already owns
+Succeeded(ev) == ev.op # "Call" /\ ev.ok = 1
+\* is the observed change ev.d of the number of live blocks one the ledger allows?  ("" = yes, otherwise what is wrong)
+DeltaWhy(st, ev) ==
+  CASE ev.op = "Free" -> IF ev.d = 0 - st.own[ev.id] THEN "" ELSE "the release function returned " \o ToString(0 - ev.d) \o " blocks, the object holds " \o ToString(st.own[ev.id])
+    [] ev.op = "ClearError" -> IF ev.d = 0 - st.pending THEN "" ELSE "clearing the error returned " \o ToString(0 - ev.d) \o " blocks, the error holds " \o ToString(st.pending)
+    [] Succeeded(ev) -> IF ev.op \in Grows THEN (IF ev.d >= 0 THEN "" ELSE "a successful addition released memory")
+                        ELSE (IF ev.d >= 1 THEN "" ELSE "a constructor handed out an object without allocating it")
+    [] OTHER ->          \* failed constructor / addition, or a call that hands nothing out: only an error object may stay behind
+         IF ev.err = 1 /\ ev.slot = 1 THEN (IF ev.d >= 1 THEN "" ELSE "an error was reported but no error object was allocated")
+         ELSE (IF ev.d = 0 THEN "" ELSE "live heap blocks changed by " \o ToString(ev.d) \o " across a call that handed nothing out")
 HeapStep(st, ev) ==
-  LET errblocks == IF ev.err = 1 /\ ev.slot = 1 THEN Footprint("error", 0) ELSE 0 IN
   CASE ev.op = "Free" -> [st EXCEPT !.own[ev.id] = 0]
     [] ev.op = "ClearError" -> [st EXCEPT !.pending = 0]
-    [] ev.op \in {"Crystal_AddCrystal", "Crystal_ReadFile"} -> [st EXCEPT !.own[ev.id] = @ + Delta(st, ev) - errblocks, !.pending = @ + errblocks]
-    [] ev.op = "Call" -> [st EXCEPT !.pending = @ + errblocks]
-    [] OTHER -> IF ev.ok = 1 THEN [st EXCEPT !.own[ev.id] = Footprint(ev.kind, ev.n), !.pending = @ + errblocks] ELSE [st EXCEPT !.pending = @ + errblocks]
+    [] Succeeded(ev) /\ ev.op \in Grows -> [st EXCEPT !.own[ev.id] = @ + ev.d]
+    [] Succeeded(ev) -> [st EXCEPT !.own[ev.id] = ev.d]
+    [] OTHER -> [st EXCEPT !.pending = @ + ev.d]
 \* outcome protocol seen from the ledger: a failed call reports through the slot iff there is one
 ProtocolOK(ev) == ev.op \in {"Free", "ClearError", "add_compound_data"} \/ ((ev.ok = 1 => ev.err = 0) /\ (ev.ok = 0 /\ ev.slot = 1 => ev.err = 1) /\ (ev.slot = 0 => ev.err = 0))
 ==============================================================================
